@@ -177,7 +177,7 @@ class Interp:
             # parameters not supplied by the rule take their declared default
             for p in func.params:
                 if p.name not in self.env and p.default is not None and p.kind in ("pos", "kwonly"):
-                    self.env[p.name] = self.eval_in_module(func.module, p.default)
+                    self.env[p.name] = self.default_value(func, p)
                 elif p.name not in self.env and p.kind == "vararg":
                     self.env[p.name] = ()
                 elif p.name not in self.env and p.kind == "kwarg":
@@ -506,6 +506,14 @@ class Interp:
         pass
 
     # ------------------------------------------------------------------ expressions
+    def default_value(self, f: Func, p):
+        """Default argument values are created once per function (shared between calls)."""
+        cache = self.root.__dict__.setdefault("default_cache", {})
+        key = (f.qual, p.name)
+        if key not in cache:
+            cache[key] = self.eval_in_module(f.module, p.default)
+        return cache[key]
+
     def eval_in_module(self, m: Module, e: ast.expr):
         sub = self.__class__.__new__(self.__class__)
         sub.__dict__.update(self.__dict__)
@@ -938,7 +946,7 @@ class Interp:
         for p in params:
             if p.kind in ("pos", "kwonly") and p.name not in env:
                 if p.default is not None:
-                    env[p.name] = self.eval_in_module(f.module, p.default)
+                    env[p.name] = self.default_value(f, p)
                 else:
                     raise RaiseSignal("TypeError", node)
         sub = self.__class__.__new__(self.__class__)
@@ -1052,6 +1060,8 @@ class Interp:
                     return args[2]
             if name == "hasattr" and isinstance(args[0], Obj) and isinstance(args[1], str):
                 return args[1] in args[0].attrs or args[0].cls.lookup(args[1]) is not None
+            if name == "hasattr" and isinstance(args[0], Class) and isinstance(args[1], str):
+                return args[0].lookup(args[1]) is not None or any(args[1] in k.class_assigns() for k in args[0].mro())
             if name == "type" and len(args) == 1 and isinstance(args[0], Obj):
                 return args[0].cls
         except (TypeError, ValueError):
